@@ -71,6 +71,7 @@ private:
 
     std::stack<const SyntaxNode*> enclosureStack_;
     mutable EnclosureIndex enclosureIdx_;
+    mutable Enclosure outermostEnclosure_;
 
     Enclosure* currentEnclosure() const;
 
